@@ -1,7 +1,8 @@
 (* C13 — Ill-formed schemas and models are rejected; accepted models always terminate.
    Only statements, [exact]s and Print Assumptions live here. *)
 From NDN Require Import Base.Prelude Base.Text Model.LvsAst Model.LvsChecker Model.LvsCompiler Spec.LvsSem Spec.LvsTree.
-From NDN Require Import Proofs.LvsMachine Proofs.LvsTreePaths Proofs.LvsCheckerThms Proofs.LvsSanity Proofs.LvsConstsAgree.
+From NDN Require Import Proofs.LvsMachine Proofs.LvsTreePaths Proofs.LvsCheckerThms Proofs.LvsSanity Proofs.LvsConstsAgree
+  Proofs.LvsFlatten Proofs.LvsGenTree Proofs.LvsCompileTree Proofs.LvsCompileThms.
 Local Open Scope N_scope.
 
 (* ---- the loader (Checker._sanity_check, with the recursion budget [sanity_fuel m] = #nodes + 1) ---- *)
@@ -46,6 +47,12 @@ Theorem C13_terminates_check ufn m (Hs : sane m) fuel pkt key p k :
   lvs_check ufn m fuel pkt key = lvs_check ufn m (Nat.max (match_cost m p) (match_cost m k)) pkt key.
 Proof. exact (lvs_check_halts ufn m Hs fuel pkt key p k). Qed.
 Print Assumptions C13_terminates_check.
+
+(* ---- compiled models pass the tree part of the loader ---- *)
+Theorem C13_compile_accepts_partial (ufn : ident -> option (bytes -> list (option bytes) -> res bool)) S chains st m :
+  chains_of S = Ok (chains, st) -> compile S = Ok m -> chains_ok (N.of_nat (length (ns_named st))) chains -> sane m.
+Proof. exact (compile_sane ufn S chains st m). Qed.
+Print Assumptions C13_compile_accepts_partial.
 
 (* T1 tie re-established on this run *)
 Theorem C13_tie_version :
